@@ -243,6 +243,9 @@ def evalE (cfg : Cfg W) : Nat → Expr → Env → W → Except String (Val × W
       | "len", [.nil] => .ok (.int 0, w)
       | "append", (.list l) :: rest => .ok (.list (l ++ rest), w)
       | "append", .nil :: rest => .ok (.list rest, w)
+      | "append...", [.list l, .list m] => .ok (.list (l ++ m), w)
+      | "append...", [.nil, .list m] => .ok (.list m, w)
+      | "append...", [.list l, .nil] => .ok (.list l, w)
       | "#array", [.int n] => .ok (.list (List.replicate n.toNat .nil), w)
       | "make", [.str ty, .int n] => .ok (.list (List.replicate n.toNat (if ty == "[]string" then .str "" else .int 0)), w)
       | "make", [.str ty, .int n, .int _] => .ok (.list (List.replicate n.toNat (if ty == "[]string" then .str "" else .int 0)), w)
